@@ -54,7 +54,22 @@ def run(ctx):
             c = chr(plane * 0x10000 + h)
             texts += [c, "a" + c + "b", c + c, c + " " + chr(h), chr(h) + c]
     texts = list(dict.fromkeys(texts))
+    # every rule the source text lists, in every language: the trigger alone, inside a word, before a space, at the end of the line
+    import gen_consts
+    per_lang = []
+    try:
+        for name, rules in sorted(gen_consts.flatten_source_arrays().items()):
+            for frm, to in rules:
+                for t in (frm, "x" + frm + "y", "geht" + frm + " ja", "so" + frm):
+                    for lang in LANGS:
+                        per_lang.append((lang, t))
+    except Exception as e:
+        ctx.notes.append({"rule_arrays_not_parsed": repr(e)})
+    ctx.cov["rule_trigger_cases"] = len(per_lang)
     ops_i, ops_m = [], []
+    for lang, t in per_lang:
+        ops_i.append(f"flat.apply {lang} {u16(t)}")
+        ops_m.append(f"flat.apply {lang} {spaces} {u16(t)}")
     for i, t in enumerate(texts):
         lang = LANGS[i % 5]
         ops_i.append(f"flat.apply {lang} {u16(t)}")
